@@ -363,8 +363,7 @@ package lang
 //@   scope functional
 //@   check none
 //@   requires p != nil && p.Config != nil
-//@   at call (*Config).Copy#1 assert bit(flags, F_FUNCTION) && arg0 == p.Config
-//@   at call (*Config).Copy#2 assert !bit(flags, F_FUNCTION) && bit(flags, F_NEW_CONFIG) && arg0 == p.Config
+//@   at call (*Config).Copy#* assert arg0 == p.Config && (bit(flags, F_FUNCTION) || bit(flags, F_NEW_CONFIG))
 //@   at store Config#1 assert bit(flags, F_FUNCTION) && fresh(fork.Config) && fork.Config != nil
 //@   at store Config#1 assert imp(fork.Process != p, fork.Config.global == ite(p.Config.global == nil, p.Config, p.Config.global))
 //@   at store Config#2 assert !bit(flags, F_FUNCTION) && bit(flags, F_NEW_CONFIG) && fresh(fork.Config) && fork.Config != nil
